@@ -99,6 +99,7 @@ def resolve(outs, U, uval, rank):
 
 
 def generic_rules(ctx, config, U):
+    convs = {}
     amt_a, amt_b = S.amount(a_), S.amount(b_)
     ua, ub = S.unit(a_), S.unit(b_)
     sa, sb = S.scale(ua), S.scale(ub)
@@ -163,6 +164,7 @@ def generic_rules(ctx, config, U):
                    "%s compares %s with %s, which are not the two magnitudes expressed in one common unit" % (fn, T.show(X), T.show(Y)), where)
             if okp:
                 ctx.ob("one-conversion", inst, nconv <= 1, "both operands are converted (error of two conversions)", where)
+                convs.setdefault(cname, []).extend((fn, t, where) for t in (X, Y) if ratfun.count_roundings(t) > 0)
             # 4. swap symmetry [E]
             if fn == "eq":
                 ok = {X, Y} == {X2, Y2}
@@ -179,6 +181,53 @@ def generic_rules(ctx, config, U):
             ctx.ob("eq-iff-cmp-equal", "%s/%s" % (config, cname), ok,
                    "== compares %s but partial_cmp compares %s" % (tuple(map(T.show, pair["eq"])), tuple(map(T.show, pair["partial_cmp"]))),
                    summ["eq"][2]["span"])
+    return convs
+
+
+# relative error allowed for the effective conversion coefficient in the
+# decimal back-end: a ratio >= 1 rounded to 18 fractional digits is off by at
+# most 5e-19 relative; twice that is accepted
+COEF_TOL = Fraction(1, 10 ** 18)
+ABS_TOL = Fraction(1, 10 ** 18)
+
+
+def conversion_accuracy(ctx, config, w, convs):
+    """Decimal back-end: for every reference-unit type and every ordered unit
+    pair, the conversion the comparison applies (the term of the pair's case)
+    must scale the amount by the exact scale ratio up to one rounding of an
+    18-digit ratio >= 1.  A conversion by a rounded ratio < 1 (or by dividing
+    through it) loses up to 14 digits for far-apart units."""
+    from . import accuracy
+    ua, ub = S.unit(a_), S.unit(b_)
+    sa, sb = T.canon(S.scale(ua)), T.canon(S.scale(ub))
+    amounts = {T.canon(S.amount(a_)), T.canon(S.amount(b_))}
+    n = 0
+    for q in w.qtypes:
+        if q.kind != "ref" or "scale" not in q.tables:
+            continue
+        rows = [(v, q.tables["scale"][v][1]) for v in q.variants_const]
+        for (u, su) in rows:
+            for (v, sv) in rows:
+                if u == v:
+                    continue
+                cname = "scale(a)<scale(b)" if su < sv else "scale(a)>scale(b)" if su > sv else "scale(a)==scale(b),units differ"
+                for (fn, t, where) in convs.get(cname, ()):
+                    inst = "%s/%s/%s/%s->%s" % (config, fn, q.path, u, v)
+                    try:
+                        r = accuracy.analyse(t, {sa: su, sb: sv}, amounts)
+                    except accuracy.Unsupported as x:
+                        ctx.fail("conversion-accuracy", inst, "unsupported conversion term: %s" % x, where)
+                        continue
+                    n += 1
+                    if r[0] != "l":
+                        ctx.fail("conversion-accuracy", inst, "conversion term does not depend on the amount", where)
+                        continue
+                    rel = abs(r[1] - r[2]) / abs(r[2])
+                    ctx.ob("conversion-accuracy", inst, rel <= COEF_TOL and r[3] <= ABS_TOL,
+                           "comparing %s with %s of %s scales the amount by %s where the exact scale ratio is %s (relative error %.3g, allowed %.1g; "
+                           "absolute rounding %.3g): magnitudes that differ by far more than one rounding of the amount type compare wrongly — term %s"
+                           % (u, v, q.path, float(r[1]), float(r[2]), float(rel), float(COEF_TOL), float(r[3]), T.show(t)), where, nontrivial=False)
+    return n
 
 
 def forwarders(ctx, config, w):
@@ -223,7 +272,10 @@ def run(ctx):
     for config in ("f64-all", "dec-all"):
         w = ws.load(config)
         ctx.configs.append(config)
-        generic_rules(ctx, config, w.U)
+        convs = generic_rules(ctx, config, w.U)
+        if config.startswith("dec"):
+            na = conversion_accuracy(ctx, config, w, convs)
+            ctx.floor("%s: unit pairs x comparison operators with analysed conversion accuracy" % config, na, 1000)
         n = forwarders(ctx, config, w)
         G.unit_identity(ctx, config, w)
         ctx.floor("%s: comparison forwarders of reference-unit types" % config, n, 2 * (23 if config == "f64-all" else 19))
